@@ -191,8 +191,11 @@ func errClass(err error) string {
 func c21Judge(m *mon.M, pfx []byte, password string, k *p12Key, tag string, wit map[string]any) bool {
 	wit["pfx"] = mon.FullHex(pfx)
 	wit["password_utf8"] = mon.FullHex([]byte(password))
-	priv, cert, err := pkcs12.Decode(pfx, password)
+	gp := guard(pfx)
+	priv, cert, err := pkcs12.Decode(gp.b(), password)
 	m.Eval()
+	checkInputs(m, "Decode", map[string]any{"tag": tag}, map[string]*guarded{"pfx": gp})
+	c21Ret.verify("Decode")
 	if err != nil {
 		wit["err"] = err.Error()
 		m.Violation("decode-failed:"+tag+":"+errClass(err), wit)
@@ -207,8 +210,11 @@ func c21Judge(m *mon.M, pfx []byte, password string, k *p12Key, tag string, wit 
 		m.Violation("decode-wrong-certificate:"+tag, wit)
 		return false
 	}
-	blocks, err := pkcs12.ToPEM(pfx, password)
+	gp2 := guard(pfx)
+	blocks, err := pkcs12.ToPEM(gp2.b(), password)
 	m.Eval()
+	checkInputs(m, "ToPEM", map[string]any{"tag": tag}, map[string]*guarded{"pfx": gp2})
+	c21Ret.verify("ToPEM")
 	if err != nil {
 		wit["err"] = err.Error()
 		m.Violation("topem-failed:"+tag+":"+errClass(err), wit)
@@ -249,13 +255,26 @@ func c21Judge(m *mon.M, pfx []byte, password string, k *p12Key, tag string, wit 
 		m.Violation("topem-wrong-block-set:"+tag, wit)
 		return false
 	}
+	// the results now belong to the caller: keep them and watch them across later calls
+	rw := map[string]any{"tag": tag, "key": k.name}
+	c21Ret.add("Decode.certificate.Raw", cert.Raw, rw)
+	c21Ret.addCheck("Decode.privateKey", func() bool { return eq.Equal(k.priv) }, rw)
+	for _, b := range blocks {
+		c21Ret.add("ToPEM.block."+b.Type, b.Bytes, rw)
+	}
 	return true
 }
 
+// c21Ret retains the last results (certificate bytes, key, PEM block bytes).
+var c21Ret *retMon
+
 // c21JudgeWrong: a wrong password yields ErrIncorrectPassword from both entry points.
 func c21JudgeWrong(m *mon.M, pfx []byte, wrong, how, tag string, wit map[string]any) {
-	_, _, err := pkcs12.Decode(pfx, wrong)
+	gp := guard(pfx)
+	_, _, err := pkcs12.Decode(gp.b(), wrong)
 	m.Eval()
+	checkInputs(m, "Decode-wrong-password", nil, map[string]*guarded{"pfx": gp})
+	c21Ret.verify("Decode with a wrong password")
 	m.Count("wrong_password_cases", 1)
 	m.Count("wrong_password:"+how, 1)
 	if !errors.Is(err, pkcs12.ErrIncorrectPassword) {
@@ -331,7 +350,7 @@ func bmpOf(pw []rune) []byte {
 func TestC21(t *testing.T) {
 	m := mon.New(t, "C21")
 	defer m.Done()
-	m.Rule("streams: (openssl) the OpenSSL 3.0 CLI generates RSA-2048/P-256 keys with certificates and exports legacy PFX files (PBE-SHA1-RC2-40 / PBE-SHA1-3DES in both roles, HMAC-SHA1, -iter {1,2,2048,4096, random 1..4096}, -nomaciter, -name) under passwords of 0..40 characters from ASCII, Latin-1, CJK, BMP edge code points and mixtures (via -passout file:); each file is first opened with the harness' own reference stack (RFC 7292 App. B KDF + 3DES/RC2 + HMAC) — disagreement there is an oracle conflict — then pkcs12.Decode and ToPEM must return exactly that key (Equal) and certificate (DER), a derived wrong password must give ErrIncorrectPassword from both, and a non-BMP password must give an error; (crafted) PFX files assembled by the harness (own DER writer, reference KDF) sweep what the CLI cannot: salt lengths 0..200 around the 64-octet block, password lengths around the block, iterations 1..4096, both empty-password conventions (BMP 0x0000 and empty octet string), NUL and noncharacter code points, omitted DEFAULT mac iterations, all four PBE algorithm assignments; a sample is read back by OpenSSL; (padding) crafted files whose PKCS#7 padding is wrong (0, > 8, inconsistent octets) on either bag must yield an error; (mutations) fault enumeration over three crafted base files at four layers — L0 raw file octets, L1 AuthenticatedSafe octets with the MAC recomputed, L2c certificate SafeContents plaintext re-encrypted and re-MACed, L2k PKCS#8 plaintext likewise — each octet × {xor 1, xor 0x80, set 0, set 0xff} plus every truncation, plus random 2-4 octet mutations, plus sampled L0 mutations of an OpenSSL-made file: Decode and ToPEM must return (value or error), never panic; every strict prefix of a file must be an error. distinct key = (stream, key type, password class, length classes, algorithms) resp. (base, layer, op, outcome class); non-trivial = the file was opened by the reference stack or built by it, and the result was judged")
+	m.Rule("streams: (openssl) the OpenSSL 3.0 CLI generates RSA-2048/P-256 keys with certificates and exports legacy PFX files (PBE-SHA1-RC2-40 / PBE-SHA1-3DES in both roles, HMAC-SHA1, -iter {1,2,2048,4096, random 1..4096}, -nomaciter, -name) under passwords of 0..40 characters from ASCII, Latin-1, CJK, BMP edge code points and mixtures (via -passout file:); each file is first opened with the harness' own reference stack (RFC 7292 App. B KDF + 3DES/RC2 + HMAC) — disagreement there is an oracle conflict — then pkcs12.Decode and ToPEM must return exactly that key (Equal) and certificate (DER), a derived wrong password must give ErrIncorrectPassword from both, and a non-BMP password must give an error; (crafted) PFX files assembled by the harness (own DER writer, reference KDF) sweep what the CLI cannot: salt lengths 0..200 around the 64-octet block, password lengths around the block, iterations 1..4096, both empty-password conventions (BMP 0x0000 and empty octet string), NUL and noncharacter code points, omitted DEFAULT mac iterations, all four PBE algorithm assignments; a sample is read back by OpenSSL; (padding) crafted files whose PKCS#7 padding is wrong (0, > 8, inconsistent octets) on either bag must yield an error; (mutations) fault enumeration over three crafted base files at four layers — L0 raw file octets, L1 AuthenticatedSafe octets with the MAC recomputed, L2c certificate SafeContents plaintext re-encrypted and re-MACed, L2k PKCS#8 plaintext likewise — each octet × {xor 1, xor 0x80, set 0, set 0xff} plus every truncation, plus random 2-4 octet mutations, plus sampled L0 mutations of an OpenSSL-made file: Decode and ToPEM must return (value or error), never panic; every strict prefix of a file must be an error. distinct key = (stream, key type, password class, length classes, algorithms) resp. (base, layer, op, outcome class); non-trivial = the file was opened by the reference stack or built by it, and the result was judged. Cross-cutting monitors: the last 12 results (certificate Raw bytes, private key, PEM block bytes) are re-verified after every later call; the PFX octets carry sentinel spare capacity and must be unchanged after every call")
 	m.Assume("ref/pkcs12kdf is validated against OpenSSL's PKCS12KDF provider in its unit test and, in every openssl-stream case here, by opening OpenSSL's file; 3DES comes from the Go standard library (a primitive pkcs12 uses too), RC2 from nettle, HMAC-SHA1 and X.509/PKCS#8 parsing from the Go standard library; OpenSSL 3.0 with the legacy provider is the interoperability witness")
 	m.Assume("success on a mutated file is accepted (the statement demands error-not-panic only); trailing garbage after the PFX and unknown attributes are observed, not judged")
 
@@ -342,11 +361,15 @@ func TestC21(t *testing.T) {
 		return
 	}
 
+	c21Ret = newRetMon(m, 12)
 	c21OpenSSL(m)
 	c21Crafted(m, rsaFix, ecFix)
 	c21Padding(m, rsaFix, ecFix)
 	c21Mutations(m, rsaFix, ecFix)
 
+	c21Ret.verify("end of run")
+	m.Gate("retention_reverifications", m.N(100000, 5000000), "earlier results (certificate bytes, key, PEM block bytes) re-verified after later calls (ring of 12)")
+	m.Gate("input_immutability_checks", m.N(20000, 900000), "PFX octets (with sentinel-filled spare capacity) unchanged after the call")
 	m.Gate("openssl_files_decoded", m.N(50, 500), "OpenSSL-made PFX files decoded to exactly key and certificate")
 	m.Gate("openssl:rsa", m.N(15, 150), "RSA-2048 files")
 	m.Gate("openssl:ec", m.N(15, 150), "P-256 files")
@@ -756,11 +779,14 @@ func applyOp(b []byte, pos, op int) []byte {
 // prefixes of the raw file must be errors.
 func c21Mutant(m *mon.M, pfx []byte, password, base, layer, op string, strictPrefix bool) {
 	var derr, perr error
+	gp := guard(pfx)
 	pv, stack := mon.Panics(func() {
-		_, _, derr = pkcs12.Decode(pfx, password)
-		_, perr = pkcs12.ToPEM(pfx, password)
+		_, _, derr = pkcs12.Decode(gp.b(), password)
+		_, perr = pkcs12.ToPEM(gp.b(), password)
 	})
 	m.EvalN(2)
+	checkInputs(m, "mutant", nil, map[string]*guarded{"pfx": gp})
+	c21Ret.verify("Decode/ToPEM on a mutated file")
 	m.Count("mut_cases", 1)
 	m.Count("mut:"+layer, 1)
 	oc := errClass(derr)
